@@ -241,6 +241,7 @@ package sstables
 
 //@ func ReadBasePath
 //@   assumed
+//@   ensures r0 != nil && optPath(r0) == p
 //@   modifies nothing
 //@ func ReadWithKeyComparator
 //@   assumed
@@ -251,6 +252,7 @@ package sstables
 
 //@ func NewSSTableReader
 //@   assumed
+//@   ensures r1 == nil && len(readerOptions) > 0 ==> rpath(r0) == optPath(readerOptions[0])
 //@   ensures r1 == nil ==> r0 != nil
 //@   ensures r1 != nil ==> r0 == nil
 //@   fresh r0
@@ -271,4 +273,13 @@ package sstables
 //@ func NewSSTableMerger
 //@   props C08
 //@   ensures r0.comp == comp
+//@   modifies nothing
+
+// optPath(o): the base path a ReadBasePath option carries. By the calling convention used throughout the repository the
+// base path is the first option handed to NewSSTableReader (assumed, see the constructor contract below).
+//@ spec func optPath(o Ref) Str
+
+//@ func NewSuperSSTableReader
+//@   props C08
+//@   ensures r0.readers === readers && r0.comp == comp
 //@   modifies nothing
